@@ -90,6 +90,10 @@ where
                     .unwrap();
             }
 
+            // Whether the registration channel has been polled until it had nothing left,
+            // i.e. whether it is going to wake this task when the next socket arrives.
+            let mut handle_pending = false;
+
             match handle.as_mut().poll_next(cx) {
                 Poll::Ready(Some(sock)) => match sock {
                     Socket::Stream(st) => {
@@ -114,7 +118,7 @@ where
                     return Poll::Pending
                 }
                 // Otherwise, move on with running the stream
-                Poll::Pending => (),
+                Poll::Pending => handle_pending = true,
             }
 
             match stream.as_mut().poll_next(cx) {
@@ -130,8 +134,13 @@ where
                 // No messages are available at this time
                 Poll::Pending => {
                     // Unwrapping is safe as the underlying sink is guaranteed not to error
-                    ready!(sink.poll_flush(cx)).unwrap();
-                    return Poll::Pending;
+                    ready!(sink.as_mut().poll_flush(cx)).unwrap();
+
+                    // Only park once the registration channel is drained: a socket (or the
+                    // channel's closure) that is already queued would not wake us up.
+                    if handle_pending {
+                        return Poll::Pending;
+                    }
                 }
             }
         }
